@@ -187,6 +187,10 @@ func (br *BlockReader) SkipNext() (*BlockMetadata, error) {
 
 	cidSize, c, err := cid.CidFromReader(io.LimitReader(br.r, int64(sectionSize)))
 	if err != nil {
+		if err == io.EOF {
+			// A non-empty section was announced; ending here is not a clean EOF.
+			err = io.ErrUnexpectedEOF
+		}
 		return nil, err
 	}
 
